@@ -68,6 +68,13 @@ func (r *Rand) Chance(p float64) bool {
 // Pick returns one of the given ints.
 func (r *Rand) Pick(v ...int) int { return v[r.Intn(len(v))] }
 
+// Shuffle is a Fisher-Yates shuffle driven by the stream.
+func (r *Rand) Shuffle(n int, swap func(i, j int)) {
+	for i := n - 1; i > 0; i-- {
+		swap(i, r.Intn(i+1))
+	}
+}
+
 // PickStr returns one of the given strings.
 func (r *Rand) PickStr(v ...string) string { return v[r.Intn(len(v))] }
 
